@@ -85,6 +85,12 @@ func mustLoad() *Program {
 		os.Exit(3)
 	}
 	P.loadSecs = time.Since(t0).Seconds()
+	P.lemmaRegion = map[string]string{}
+	for _, f := range loadFindings().Findings {
+		if strings.HasPrefix(f.Obligation, "lemma/") {
+			P.lemmaRegion[strings.TrimPrefix(f.Obligation, "lemma/")] = f.Region
+		}
+	}
 	return P
 }
 
